@@ -114,7 +114,7 @@ fn fingerprint(d: &v::VsockDriver) -> String {
     };
     let tf = tx.locked.read().verif_flags();
     format!(
-        "{},{},{},{},{},{},{},{},{},{},{},{},{},{},{},{},{},{},{},{},{},{},{},{},{},{},{},{},{},{}|{}|{},{},{},{},{}{}{}{}|{}:{},{},{}{}{}{}{}",
+        "{},{},{},{},{},{},{},{},{},{},{},{},{},{},{},{},{},{},{},{},{},{},{},{},{},{},{},{},{},{},{}|{}|{},{},{},{},{}{}{}{}|{}:{},{},{}{}{}{}{}",
         s.state,
         s.state_a,
         s.state_b,
@@ -145,6 +145,7 @@ fn fingerprint(d: &v::VsockDriver) -> String {
         s.recovery.4,
         s.recovery.5,
         s.recovery_supports_sack as u8,
+        s.transport_pending as u8,
         segs,
         rx.filled_front,
         rx.ooq_len,
@@ -239,6 +240,7 @@ fn run(t: &[&str]) -> String {
     let (rc, rw) = counting_waker();
     let (wc, ww) = counting_waker();
     let mut out: Vec<String> = Vec::new();
+    out.push(format!("I:-/-/{}", fingerprint(&d)));
     let mut finished = false;
     for tok in &t[18..] {
         if finished {
@@ -414,7 +416,7 @@ fn run(t: &[&str]) -> String {
                         fingerprint(&d)
                     ));
                 } else {
-                    out.push(format!("{}/{}", res, wakes));
+                    out.push(format!("{}/{}/{}", res, wakes, fingerprint(&d)));
                 }
             }
         }
